@@ -132,12 +132,39 @@ fn qs(v: &[Q]) -> String {
 /// the round-trip oracle on one serialisation.  `pretty`: the input was collected into a set first, so every
 /// statement must be stated once; streaming mode writes one statement per input statement.
 fn roundtrip(trig: bool, pretty: bool, input: &[Q], txt: &str) -> String {
+    roundtrip_n(trig, pretty, input, txt).0
+}
+
+/// strict RDF-star (what Rio can represent), written independently of `convert_triple`
+fn strict_subject(t: &T) -> bool {
+    match t {
+        T::Iri(_) | T::Bnode(_) => true,
+        T::Triple(b) => strict_subject(&b[0]) && matches!(b[1], T::Iri(_)) && strict_object(&b[2]),
+        _ => false,
+    }
+}
+fn strict_object(t: &T) -> bool {
+    match t {
+        T::Iri(_) | T::Bnode(_) | T::Lit(..) | T::Lang(..) => true,
+        T::Triple(b) => strict_subject(&b[0]) && matches!(b[1], T::Iri(_)) && strict_object(&b[2]),
+        T::Var(_) => false,
+    }
+}
+fn strict_quad(q: &Q, with_graph: bool) -> bool {
+    strict_subject(&q.s)
+        && matches!(q.p, T::Iri(_))
+        && strict_object(&q.o)
+        && (!with_graph || matches!(q.g, None | Some(T::Iri(_)) | Some(T::Bnode(_))))
+}
+
+/// also returns the number of statements in the document (None: it did not parse)
+fn roundtrip_n(trig: bool, pretty: bool, input: &[Q], txt: &str) -> (String, Option<usize>) {
     let expected: BTreeSet<Q> = input.iter().map(iso::norm_q).collect();
     let primary = if trig { "trig" } else { "turtle" };
     let mut out = String::new();
     let stated = match parse_with(primary, txt) {
         Err(e) => {
-            return format!(" FAIL.parse_error={}", hex(&e));
+            return (format!(" FAIL.parse_error={}", hex(&e)), None);
         }
         Ok(g) => g,
     };
@@ -167,7 +194,7 @@ fn roundtrip(trig: bool, pretty: bool, input: &[Q], txt: &str) -> String {
             }
         }
     }
-    out
+    (out, Some(stated.len()))
 }
 
 fn parse_quads(toks: &[&str]) -> Option<Vec<Q>> {
@@ -213,6 +240,20 @@ pub fn exec_real(line: &str) -> String {
                 return format!("{} cfg=rejected", head);
             };
             let head = format!("{} cfg=ok", head);
+            if generalized && !pretty {
+                // streaming mode on generalized data: "non-standard (generalized) RDF quads will be silently ignored";
+                // the document must hold exactly the strict RDF-star statements of the input
+                let strict: Vec<Q> = quads.iter().filter(|q| strict_quad(q, true)).cloned().collect();
+                return match catch(std::panic::AssertUnwindSafe(|| serialize(true, alt, cfg, &quads))) {
+                    Err(p) => format!("{} FAIL.ser_panic={}", head, hex(&p)),
+                    Ok(Err(e)) => format!("{} FAIL.ser_error={}", head, hex(&e)),
+                    Ok(Ok(txt)) => {
+                        let (rt, n) = roundtrip_n(true, false, &strict, &txt);
+                        let kept = n.map(|n| format!(" kept={}", n)).unwrap_or_default();
+                        format!("{} stream={}{}{}", head, hex(&txt), kept, rt)
+                    }
+                };
+            }
             if generalized {
                 return match catch(std::panic::AssertUnwindSafe(|| serialize(true, alt, cfg, &quads))) {
                     Err(p) => format!("{} x.ser_panic={}", head, hex(&p)),
@@ -237,7 +278,7 @@ pub fn exec_real(line: &str) -> String {
                 Err(p) => format!("{} FAIL.ser_panic={}", head, hex(&p)),
                 Ok(Err(e)) => format!("{} FAIL.ser_error={}", head, hex(&e)),
                 Ok(Ok(txt)) => {
-                    let mut rt = roundtrip(trig, pretty, &quads, &txt);
+                    let (mut rt, stated) = roundtrip_n(trig, pretty, &quads, &txt);
                     let turtle_ws = |c: char| matches!(c, ' ' | '\t' | '\r' | '\n');
                     if rt.contains(" FAIL.") && !ind.chars().all(turtle_ws) {
                         // observation: does the same request round-trip once every character of the indentation that is
@@ -256,7 +297,8 @@ pub fn exec_real(line: &str) -> String {
                         format!("{} out={}{}", head, hex(&txt), rt)
                     } else {
                         // streaming mode is Rio's formatter: the text is not modelled, only observed
-                        format!("{} stream={}{}", head, hex(&txt), rt)
+                        let kept = stated.map(|n| format!(" kept={}", n)).unwrap_or_default();
+                        format!("{} stream={}{}{}", head, hex(&txt), kept, rt)
                     }
                 }
             }
